@@ -65,6 +65,7 @@ func runC08(e *Env) error {
 		}
 	}
 	r.Note(fmt.Sprintf("operator-pair evaluations: %d", pairEvals))
+	c08Names(e)
 	// (a') tight spellings: every symbolic operator between every kind of left and right operand with no space at all
 	// (a sign, a bracket or a quote next to the operator must not change how it is read)
 	{
@@ -286,15 +287,16 @@ func runC08(e *Env) error {
 func positions(e *Env, src string, ctx map[string]any, want string) error {
 	r := e.Rep
 	forms := map[string]string{
-		"set":        "{% set x = " + src + " %}{{ x }}",
-		"array-elem": "{{ [" + src + "][0] }}",
-		"for-seq":    "{% for v in [" + src + "] %}{{ v }}{% endfor %}",
-		"hash-value": "{% set h = {'k': " + src + "} %}{{ h.k }}",
-		"filter-arg": "{{ nul|default(" + src + ") }}",
-		"include":    "{% include 'show' with {'v': " + src + "} only %}",
-		"macro-arg":  "{% macro id(q) %}{{ q }}{% endmacro %}{{ id(" + src + ") }}",
-		"cond-arm":   "{{ t ? " + src + " : 0 }}",
-		"parens":     "{{ ((" + src + ")) }}",
+		"set":            "{% set x = " + src + " %}{{ x }}",
+		"array-elem":     "{{ [" + src + "][0] }}",
+		"for-seq":        "{% for v in [" + src + "] %}{{ v }}{% endfor %}",
+		"hash-value":     "{% set h = {'k': " + src + "} %}{{ h.k }}",
+		"filter-arg":     "{{ nul|default(" + src + ") }}",
+		"include":        "{% include 'show' with {'v': " + src + "} only %}",
+		"include-rebind": "{% include 'show' with {" + rebindAll(ctx) + "'v': " + src + "} %}",
+		"macro-arg":      "{% macro id(q) %}{{ q }}{% endmacro %}{{ id(" + src + ") }}",
+		"cond-arm":       "{{ t ? " + src + " : 0 }}",
+		"parens":         "{{ ((" + src + ")) }}",
 	}
 	// default() replaces empty values, so that position is only comparable for non-empty results
 	for name, tpl := range forms {
@@ -318,4 +320,86 @@ func positions(e *Env, src string, ctx map[string]any, want string) error {
 	}
 	// if-condition position: truthiness of the printed value's source
 	return nil
+}
+
+// rebindAll: `'k': 'REBOUND', ` for every context key — entries written BEFORE the entry under test; every
+// include variable is evaluated in the including template's scope, so they must not influence it
+func rebindAll(ctx map[string]any) string {
+	var sb strings.Builder
+	for _, k := range sortedKeys(ctx) {
+		if k != "v" {
+			sb.WriteString("'" + k + "': 'REBOUND', ")
+		}
+	}
+	return sb.String()
+}
+
+// c08Names: a variable is found by its exact name. All two-letter names over [A-Za-z0-9] (the second from a smaller
+// set) and names built from the blocks Aa / BB (equal under every polynomial string hash with a small multiplier),
+// each bound to its own value, printed in chunks.
+func c08Names(e *Env) {
+	r := e.Rep
+	var names []string
+	first := "ABCDEFGHIJKLMNOPQRSTUVWXYZabcdefghijklmnopqrstuvwxyz"
+	second := "ABCDEFGHIJKLMNOPQRSTUVWXYZabcdefghijklmnopqrstuvwxyz0123456789"
+	reserved := map[string]bool{"in": true, "is": true, "or": true, "as": true, "if": true, "do": true, "b": true}
+	for _, a := range first {
+		for _, c := range second {
+			n := string(a) + string(c)
+			if !reserved[n] {
+				names = append(names, n)
+			}
+		}
+	}
+	for _, pre := range []string{"", "row", "v_"} {
+		for _, blocks := range [][]string{{"Aa"}, {"BB"}, {"Aa", "Aa"}, {"Aa", "BB"}, {"BB", "Aa"}, {"BB", "BB"}, {"Aa", "Aa", "Aa"}, {"BB", "BB", "BB"}, {"Aa", "BB", "Aa"}, {"BB", "Aa", "BB"}, {"Ab"}, {"BC"}} {
+			n := pre + strings.Join(blocks, "")
+			if len(n) > 2 || pre != "" {
+				names = append(names, n)
+			}
+		}
+	}
+	ctx := map[string]any{}
+	for i, n := range names {
+		ctx[n] = i + 1
+	}
+	const chunk = 150
+	for off := 0; off < len(names) && !r.Full(); off += chunk {
+		end := off + chunk
+		if end > len(names) {
+			end = len(names)
+		}
+		var src, want strings.Builder
+		for i := off; i < end; i++ {
+			src.WriteString("{{ " + names[i] + " }},")
+			want.WriteString(fmt.Sprint(i+1) + ",")
+		}
+		// one engine for all chunks would be another history; a fresh one per chunk is what users' first parse sees.
+		// The tokenizer's identifier table is pooled, so later chunks meet the names interned by earlier ones.
+		im := runImpl(&Case{Templates: map[string]string{"main": src.String()}, Main: "main", Ctx: ctx, FailAt: -1})
+		r.Seen(fmt.Sprintf("names:%d", off), true)
+		r.Hit("identifier-names")
+		if im.Class != "" || im.Out != want.String() {
+			bad := ""
+			got := strings.Split(im.Out, ",")
+			for i := off; i < end && i-off < len(got); i++ {
+				if got[i-off] != fmt.Sprint(i+1) {
+					bad = fmt.Sprintf("{{ %s }} printed %s, its value is %d (the value of %q)", names[i], got[i-off], i+1, func() string {
+						for j, n := range names {
+							if fmt.Sprint(j+1) == got[i-off] {
+								return n
+							}
+						}
+						return "?"
+					}())
+					break
+				}
+			}
+			if r.Violate(Violation{Key: "variable-name-confused", What: fmt.Sprintf("%d variables with distinct names and values printed in one template: %s %s (%s)", end-off, bad, im.Class, truncate(im.Msg, 100)),
+				Broken: "theorem C08_lex_identifier / evalX .var reads the variable of exactly that name (implementation-only oracle)",
+				Replay: map[string]any{"kind": "names", "names": names[off:end], "first_value": off + 1, "got": truncate(im.Out, 600), "class": im.Class}}) {
+				return
+			}
+		}
+	}
 }
